@@ -663,7 +663,12 @@ func (sc *specCtx) idx(n *SIdx) SV {
 		if isStruct(u.Elem()) && e.m.structOf(u.Elem()) != nil {
 			return SV{Addr: a, Ty: u.Elem()}
 		}
-		return SV{T: e.loadAt(sc.cur(), a, u.Elem()), Ty: u.Elem()}
+		t := e.loadAt(sc.cur(), a, u.Elem())
+		sc.heapFact(t, u.Elem())
+		if e.elemNonNil(u.Elem()) && sc.guard != "" && !sc.inOld && !strings.Contains(t, "q_") && !e.isFreshAddr(fmt.Sprintf("(sl_base %s)", s)) {
+			e.assume(sc.guard, fmt.Sprintf("(not (= %s %s))", t, e.nilOfType(u.Elem())))
+		}
+		return SV{T: t, Ty: u.Elem()}
 	case *types.Map:
 		dn, ds, vn, vs := e.mapArrs(v.Ty)
 		_ = dn
